@@ -466,7 +466,7 @@ func (e *Environment) CreateOrSet(name string, val Object, create bool) Object {
 		old, ok := e.Get(name) // not ok
 		if ok {
 			log.Infof("Attempt to change constant %s from %v to %v", name, old, val)
-			if !Equals(old, val) {
+			if !Identical(old, val) {
 				return Error{Value: fmt.Sprintf("attempt to change constant %s from %s to %s", name, old.Inspect(), val.Inspect())}
 			}
 		}
